@@ -105,10 +105,12 @@ CHECKS = {
           "re-joining gives back the total duration; repeat_until_duration(d) lasts exactly d. Content of a window (written notes): "
           "get_melody_between / get_chord_between return exactly the notes overlapping [a,b), in order, each clipped to the window, a note "
           "already sounding at a becoming a continuation, every other kept note keeping pitch, kind and dynamics (a map over the part's "
-          "timeline, no loop state). That the SOUNDING notes of the window are the clipped original ones and that re-joining reproduces the "
-          "original sound is evaluated on the implementation by the oracle (render both sides with get_notes) and tied by correspondence.",
-  "note": "Trusted: Coq kernel; adapters and tick scaling of cut points. Partial: the score-level content (chord selection + per-chord windows "
-          "composed) and the re-join sound are oracle + correspondence only; the content theorems need strictly positive note durations. Relative notes whose reference is cut away are outside the window-content oracle (the statement cannot apply).",
+          "timeline, no loop state). Re-joining: the windows [a,t) and [t,b) of a part, one after the other, are the part with the note held "
+          "across t written as head + continuation, and that sounds exactly the same (C03's sounding notes, any reference, anything after). "
+          "The score-level composition (chord selection, several parts, both pieces as separate chords) is evaluated on the implementation "
+          "by the oracle (render both sides with get_notes) and tied by correspondence.",
+  "note": "Trusted: Coq kernel; adapters and tick scaling of cut points. Partial: the score-level content and re-join (chord selection + per-chord windows "
+          "composed) are oracle + correspondence only, the part-level statements are theorems; the content theorems need strictly positive note durations. Relative notes whose reference is cut away are outside the window-content oracle (the statement cannot apply).",
  },
  "C16": {
   "text": "Theorems over Q for each of the 15 tags, every duration d >= 0 and every neighbouring-note context: the pieces of the figure sum "
